@@ -1,4 +1,5 @@
 """C08 - exactly the requested instantiations exist, in order, with stable names (Engine F)."""
+from .. import rules_flow as RF
 from .. import rules_inst as RI
 
 ID = "C08"
@@ -13,7 +14,9 @@ EXPLANATION = (
     "namespaces are recursed into in place; typedef instantiations are appended last; nothing is re-ordered. "
     "N4: all instantiation names come from the one naming helper applied to the template's own name and the "
     "instantiation list; C++ spellings are Name<args> built from the same two. N5: the naming helper "
-    "upper-cases the first character only and concatenates suffixes in instantiation order.")
+    "upper-cases the first character only and concatenates suffixes in instantiation order. N6: neither the "
+    "parser nor the instantiator keeps class-level / module-level / memoised state, so a typedef is resolved "
+    "against the declarations of the module being instantiated and never against an earlier module's.")
 ASSUMPTIONS = [
     "itertools.product enumerates in lexicographic order of its argument lists (documented)",
     "the parser keeps instantiation lists in source order (C01/G6)",
@@ -26,3 +29,4 @@ def run(ctx, rep):
     rep.run(RI.rule_pass_through, ctx, rep, "N3")
     rep.run(RI.rule_naming, ctx, rep, "N4", min_sites=5)
     rep.run(RI.rule_capitalise, ctx, rep, "N5")
+    rep.run(RF.rule_no_shared_state, ctx, rep, "N6", packages=("gtwrap/interface_parser", "gtwrap/template_instantiator"))
